@@ -95,6 +95,9 @@ pub enum Fault {
     CharReplace { pos: usize, ch: u8 },
     NumReplace { which: u8, value: u64 },
     WrongPassword,
+    /// the verifier is handed a corrupted / special public key
+    /// (0 zeros, 1 0xff.., 2 identity, 3 y=-1 (order 2), 4 order-4 point, 5 non-canonical y=p, 6 random, 7 one flipped bit)
+    PublicKey { kind: u8, bit: usize },
 }
 
 impl Fault {
@@ -113,6 +116,7 @@ impl Fault {
             Fault::CharReplace { .. } => "char.replace",
             Fault::NumReplace { .. } => "num.replace",
             Fault::WrongPassword => "wrong.password",
+            Fault::PublicKey { .. } => "public.key",
         }
     }
 }
@@ -243,6 +247,33 @@ impl VerifierWorld {
         self.wire = Some(wire);
     }
 
+    fn special_pk(&self, kind: u8, bit: usize) -> [u8; 32] {
+        let mut p = [0u8; 32];
+        match kind % 8 {
+            0 => {}
+            1 => p = [0xff; 32],
+            2 => p[0] = 1,
+            3 => {
+                p = [0xff; 32];
+                p[0] = 0xec;
+                p[31] = 0x7f;
+            }
+            4 => p[31] = 0x80,
+            5 => {
+                p = [0xff; 32];
+                p[0] = 0xed;
+                p[31] = 0x7f;
+            }
+            6 => p = pattern(bit as u64 * 4 + 2, 32).try_into().unwrap(),
+            _ => {
+                p = self.sign_pk;
+                let b = bit % 256;
+                p[b / 8] ^= 1 << (b % 8);
+            }
+        }
+        p
+    }
+
     fn corrupt(&self, fault: &Fault, out: &mut Out) -> (Vec<u8>, bool) {
         let mut w = self.wire.clone().unwrap_or_default();
         let k = self.cfg.kind;
@@ -305,6 +336,7 @@ impl VerifierWorld {
                 }
             }
             Fault::WrongPassword => wrong_pw = true,
+            Fault::PublicKey { .. } => fired = k.overhead() == 64,
             Fault::SegDrop { .. } | Fault::SegDup { .. } | Fault::SegSwap { .. } | Fault::SegEmpty { .. } | Fault::CharReplace { .. } | Fault::NumReplace { .. } => {
                 if !k.is_string() {
                     fired = false;
@@ -355,9 +387,12 @@ impl VerifierWorld {
 
     /// Hand the delivered bytes to the entry point. Ok(Some(true)) accepted,
     /// Ok(Some(false)) rejected, Ok(None) not called (cost guard).
-    fn receive(&self, w: &[u8], wrong_pw: bool, out: &mut Out) -> (Result<Option<bool>, (String, String)>, usize) {
+    fn receive(&self, w: &[u8], wrong_pw: bool, fault: &Fault, out: &mut Out) -> (Result<Option<bool>, (String, String)>, usize) {
         let k = self.cfg.kind;
-        let pk = self.sign_pk;
+        let pk = match fault {
+            Fault::PublicKey { kind, bit } => self.special_pk(*kind, *bit),
+            _ => self.sign_pk,
+        };
         let key = self.mac_key;
         let oh = k.overhead();
         let password: Vec<u8> = if wrong_pw { b"not the password".to_vec() } else { self.msg.clone() };
@@ -503,7 +538,14 @@ impl World for VerifierWorld {
                         0..=3 => Fault::Truncate { k: 1 + rng.usize_below(wire_guess.max(1)) },
                         4 => Fault::Extend { k: 1 + rng.usize_below(40), fill: rng.below(256) as u8 },
                         5..=6 => Fault::Flip { bit: rng.usize_below(8 * wire_guess.max(1)) },
-                        7..=8 => Fault::Garbage { len: rng.usize_below(2 * k.overhead() + 65), kind: rng.below(12) as u8 },
+                        7 => Fault::Garbage { len: rng.usize_below(2 * k.overhead() + 65), kind: rng.below(12) as u8 },
+                        8 => {
+                            if k.overhead() == 64 {
+                                Fault::PublicKey { kind: rng.below(8) as u8, bit: rng.usize_below(256) }
+                            } else {
+                                Fault::Garbage { len: rng.usize_below(2 * k.overhead() + 65), kind: rng.below(12) as u8 }
+                            }
+                        }
                         _ => Fault::Splice { at: rng.usize_below(wire_guess.max(1)), n: 1 + rng.usize_below(20), fill: rng.next_u64() % 1000 },
                     }
                 };
@@ -530,7 +572,7 @@ impl World for VerifierWorld {
                 }
                 let k = self.cfg.kind;
                 let (w, wrong_pw) = self.corrupt(fault, out);
-                let (res, peak) = self.receive(&w, wrong_pw, out);
+                let (res, peak) = self.receive(&w, wrong_pw, fault, out);
                 out.op();
                 out.shape(&format!("D{}", fault.kind()));
                 let oh = k.overhead();
